@@ -427,8 +427,13 @@ class JournalStorageReplayResult:
     def get_all_studies(self) -> list[FrozenStudy]:
         return list(self._studies.values())
 
+    def _trial_exists(self, trial_id: int) -> bool:
+        # Trials of a deleted study stay in ``_trials`` (trial IDs are allocated from its size),
+        # but they no longer exist as far as readers and writers are concerned.
+        return trial_id in self._trials and self._trial_id_to_study_id[trial_id] in self._studies
+
     def get_trial(self, trial_id: int) -> FrozenTrial:
-        if trial_id not in self._trials:
+        if not self._trial_exists(trial_id):
             raise KeyError(NOT_FOUND_MSG)
         return self._trials[trial_id]
 
@@ -496,6 +501,7 @@ class JournalStorageReplayResult:
         if self._study_exists(study_id, log):
             fs = self._studies.pop(study_id)
             assert fs._study_id == study_id
+            self._study_id_to_trial_ids.pop(study_id)
 
     def _apply_set_study_user_attr(self, log: dict[str, Any]) -> None:
         study_id = log["study_id"]
@@ -645,7 +651,7 @@ class JournalStorageReplayResult:
             self._trials[trial_id] = trial
 
     def _trial_exists_and_updatable(self, trial_id: int, log: dict[str, Any]) -> bool:
-        if trial_id not in self._trials:
+        if not self._trial_exists(trial_id):
             if self._is_issued_by_this_worker(log):
                 raise KeyError(NOT_FOUND_MSG)
             return False
